@@ -15,7 +15,9 @@ for line in notes.splitlines():
     if re.search(r"need|trigger|to see it", line, re.I):
         need = line.strip(" -*")
         break
-ORIGIN = {15: "independent sub-agent (round 15), given only the property text and its own scratch worktree of /repo (base 7d4957a); the defect prompt of round 13 with the functions of ALL "
+ORIGIN = {17: "independent sub-agent (round 17, 20-minute limit), given only the property text and its own scratch worktree of /repo (base 7d4957a); the defect prompt of round 15 with the "
+              "functions of ALL earlier seeds (rounds 1-5, 9, 11, 13, 15) excluded; nothing from /verif",
+          15: "independent sub-agent (round 15), given only the property text and its own scratch worktree of /repo (base 7d4957a); the defect prompt of round 13 with the functions of ALL "
               "earlier seeds (rounds 1-5, 9, 11, 13) excluded; nothing from /verif",
           13: "independent sub-agent (round 13), given only the property text and its own scratch worktree of /repo (base 5098bbd); the defect prompt of round 11 with the functions of ALL "
               "earlier seeds (rounds 1-5, 9, 11) excluded; nothing from /verif",
